@@ -149,6 +149,42 @@ Lemma fold_set_diag_square n x : forall pos (M : list (list T)),
   square n M -> square n (fold_left (fun M i => set_diag M i x) pos M).
 Proof. induction pos as [|i pos IH]; intros M HM; cbn; auto. apply IH. now apply set_diag_square. Qed.
 
+Lemma nth_map2_gen {A B C} (f : A -> B -> C) da db dc : forall a b i,
+  i < length a -> i < length b -> nth i (map2 f a b) dc = f (nth i a da) (nth i b db).
+Proof.
+  induction a as [|x a IH]; intros [|y b] [|i] Ha Hb; cbn in *; try lia; auto. apply IH; lia.
+Qed.
+
+(* one entry of set_diag *)
+Lemma nth_set_diag n (M : list (list T)) i x a b d :
+  square n M -> a < n -> b < n ->
+  nth a (nth b (set_diag M i x) []) d =
+  if Nat.eqb b i && Nat.eqb a i then x else nth a (nth b M []) d.
+Proof.
+  intros [HL HR] Ha Hb. unfold set_diag.
+  rewrite (nth_map2_gen _ [] 0) by (rewrite ?seq_length; lia).
+  rewrite seq_nth by lia. rewrite Nat.add_0_l.
+  destruct (Nat.eqb b i) eqn:E; cbn [andb]; auto.
+  assert (length (nth b M []) = n) as Hr.
+  { rewrite Forall_forall in HR. apply HR. apply nth_In. lia. }
+  rewrite (nth_map2_gen _ d 0) by (rewrite ?seq_length; lia).
+  rewrite seq_nth by lia. rewrite Nat.add_0_l. reflexivity.
+Qed.
+
+Lemma nth_fold_set_diag n x a b d : forall pos (M : list (list T)),
+  square n M -> a < n -> b < n ->
+  nth a (nth b (fold_left (fun M i => set_diag M i x) pos M) []) d =
+  if Nat.eqb b a && existsb (Nat.eqb a) pos then x else nth a (nth b M []) d.
+Proof.
+  induction pos as [|i pos IH]; intros M HM Ha Hb; cbn [fold_left existsb].
+  - now rewrite andb_false_r.
+  - rewrite IH by (auto using set_diag_square). rewrite (nth_set_diag n) by auto.
+    destruct (Nat.eqb_spec b a) as [->|Hba]; cbn [andb].
+    + destruct (existsb (Nat.eqb a) pos); [now rewrite orb_true_r|].
+      rewrite orb_false_r. destruct (Nat.eqb a i); reflexivity.
+    + destruct (Nat.eqb_spec b i), (Nat.eqb_spec a i); cbn [andb]; auto. congruence.
+Qed.
+
 (* growing the layer by k >= 1 weights: k zero rows/columns are inserted before the bias coordinate
    and the k new diagonal entries w .. w+k-1 are set to dval *)
 Definition grown (w k : nat) (dval : T) (S : list (list T)) : list (list T) :=
@@ -189,6 +225,35 @@ Proof.
         + rewrite Forall_forall in HR. apply HR. eapply In_skipn_local; eauto. }
     rewrite !app_length, repeat_length, firstn_length, skipn_length. lia.
 Qed.
+
+(* every coordinate that did not exist before carries dval on the diagonal *)
+Lemma grown_diag w k dval d (M : list (list T)) j : square (w + 1) M -> j < k ->
+  nth (w + j) (nth (w + j) (grown w k dval M) []) d = dval.
+Proof.
+  intros HM Hj. unfold grown.
+  set (M0 := map _ _).
+  assert (square (w + k + 1) M0) as H0.
+  { pose proof (grown_square w 0 dval M HM) as _.
+    destruct HM as [HL HR]. subst M0. split.
+    - rewrite map_length, !app_length, repeat_length, firstn_length, skipn_length. lia.
+    - rewrite Forall_forall. intros r Hr. apply in_map_iff in Hr. destruct Hr as [r0 [<- Hr0]].
+      assert (length r0 = w + 1) as Hlen.
+      { apply in_app_or in Hr0. destruct Hr0 as [Hr|Hr].
+        - rewrite Forall_forall in HR. apply HR. eapply In_firstn_local; eauto.
+        - apply in_app_or in Hr. destruct Hr as [Hr|Hr].
+          + apply repeat_spec in Hr. subst. apply repeat_length.
+          + rewrite Forall_forall in HR. apply HR. eapply In_skipn_local; eauto. }
+      rewrite !app_length, repeat_length, firstn_length, skipn_length. lia. }
+  rewrite (nth_fold_set_diag (w + k + 1)) by (auto; lia).
+  rewrite Nat.eqb_refl. cbn [andb].
+  replace (existsb (Nat.eqb (w + j)) (seq w k)) with true; auto.
+  symmetry. rewrite existsb_seq.
+  destruct (Nat.leb_spec w (w + j)), (Nat.ltb_spec (w + j) (w + k)); cbn; auto; lia.
+Qed.
+
+Lemma resize_new_diagonal_lemma w k dval d (M : list (list T)) j : square (w + 1) M -> j < k ->
+  nth (w + j) (nth (w + j) (reinit_bandit_grads zero true (lin w) (lin (w + k)) dval M) []) d = dval.
+Proof. intros HM Hj. rewrite reinit_grow_lemma by (auto; lia). now apply grown_diag. Qed.
 
 (* shrinking by k >= 1 weights deletes rows and columns w .. w+k-1 *)
 Definition shrunk (w k : nat) (M : list (list T)) : list (list T) :=
